@@ -182,7 +182,7 @@ CHECKS = {
              "For the deriving operations themselves (Props/C12B): the document returned by flattened()/unified() in a well-formed heap "
              "holds the manager cell allocated by the call, which no earlier container references (StableMgr through every step), so any "
              "mutation sequence on the result leaves every earlier cell unchanged (c12_flattened_independent, c12_unified_independent). "
-             "Derive->mutate->observe histories on the real objects for 11 deriving operations x 7 mutators, both directions. Props/C12C: the well-formedness premise is an invariant of every history - reachAny_wfMgr: in every state the public interface can produce (mutators and deriving operations in any order, any arguments) every container refers to an allocated manager cell - so the independence of the documents returned by unified() / flattened() holds of every reachable state with no hypothesis left (c12_unified_independent_reach, c12_flattened_independent_reach).",
+             "Derive->mutate->observe histories on the real objects for 11 deriving operations x 7 mutators, both directions. Props/C12C: the well-formedness premise is an invariant of every history - reachAny_wfMgr: in every state the public interface can produce (mutators and deriving operations in any order, any arguments) every container refers to an allocated manager cell - so the independence of the documents returned by unified() / flattened() holds of every reachable state with no hypothesis left (c12_unified_independent_reach, c12_flattened_independent_reach). Props/C12D, every deriving operation at once: a container created by any deriving step (the bundle add_bundle(document) builds, the bundles update creates, the document flattened()/unified() returns and its bundles) refers to a manager cell no earlier container refers to (invariant Sep through every step), so mutations on either side leave the other side's container cell, manager cell and record cells as they were (c12_derived_independent, c12_source_independent), in every reachable state.",
         note=A_COMMON + " Aliasing below record granularity (shared attribute sets) is not expressible in the heap model; it is exposed by the "
              "non-interference oracle and as a correspondence difference.",
         technique="Lean 4 frame/separation proofs over a heap model + non-interference oracle on real objects",
